@@ -111,9 +111,9 @@ example : genesis [⟨1, 3999999999999999000, [(5, 100), (6, 7)]⟩, ⟨2, 1000,
 -- and a plain send all go through `step` un-rejected on a concrete state.
 def exS : St := { accts := [(3, ⟨1000, 4⟩), (7, ⟨5000, 0⟩), (minerSC, ⟨0, 0⟩)], store := [(1, 11)] }
 def exT (typ : TxnType) : Txn := { sender := 3, to := 7, toValid := true, value := 100, fee := 10, nonce := 5, typ := typ }
-example : (step true exS (exT .sc) (.ok [.put 2 22] [⟨3, 7, 100, true⟩, ⟨7, 9, 40, true⟩] [])).2 = .success := by decide
-example : (step true exS (exT .sc) (.chargeable [.put 2 22] [⟨7, 9, 40, true⟩] [])).2 = .failed := by decide
+example : (step true exS (exT .sc) (.ok [.put 2 22] [⟨3, 7, 100, true, false⟩, ⟨7, 9, 40, true, false⟩] [])).2 = .success := by decide
+example : (step true exS (exT .sc) (.chargeable [.put 2 22] [⟨7, 9, 40, true, false⟩] [])).2 = .failed := by decide
 example : (step true exS (exT .send) .internal).2 = .success := by decide
-example : total (step true exS (exT .sc) (.ok [] [⟨3, 7, 100, true⟩, ⟨7, 9, 40, true⟩] [])).1.accts = 6000 := by decide
+example : total (step true exS (exT .sc) (.ok [] [⟨3, 7, 100, true, false⟩, ⟨7, 9, 40, true, false⟩] [])).1.accts = 6000 := by decide
 
 end ZChain.Ledger
